@@ -1,4 +1,5 @@
 pub mod c01;
+pub mod c05race;
 pub mod common;
 pub mod hist;
 pub mod histchecks;
@@ -11,7 +12,7 @@ pub fn by_id(id: &str) -> Option<Box<dyn Check>> {
         "C01" => Some(Box::new(c01::C01)),
         "C02" => Some(Box::new(histchecks::HistCheck { prop: "C02" })),
         "C03" => Some(Box::new(histchecks::HistCheck { prop: "C03" })),
-        "C05" => Some(Box::new(histchecks::HistCheck { prop: "C05" })),
+        "C05" => Some(Box::new(histchecks::C05)),
         "C08" => Some(Box::new(histchecks::HistCheck { prop: "C08" })),
         _ => None,
     }
